@@ -53,6 +53,10 @@ func sortedDetail(f *run.Failure) (string, bool) {
 	return "", false
 }
 
+// same reports whether the model text equals the observed one (the framework
+// hands matchers unclipped texts; a clipped comparison is kept for robustness).
+func same(model, observed string) bool { return model == observed || clip(model) == observed }
+
 func clip(s string) string { // mirrors run.Ctx.Fail
 	if len(s) > 4000 {
 		return s[:4000] + "…(clipped)"
@@ -67,19 +71,19 @@ func reproduces(f *run.Failure, in Input, dev refjson.Dev) bool {
 		ex := expectParse(in.Text, dev)
 		if dev&devKeyOrder != 0 {
 			s, ok := sortedDetail(f)
-			return ok && s == clip("sorted="+ex.sorted)[7:]
+			return ok && same("sorted="+ex.sorted, "sorted="+s)
 		}
-		return clip(ex.result) == f.Actual
+		return same(ex.result, f.Actual)
 	case "law:stringify(parse(t))":
-		return clip(expectLawSP(in.Text, dev)) == f.Actual
+		return same(expectLawSP(in.Text, dev), f.Actual)
 	case "JSON.parse+reviver", "JSON.parse+reviver:calls":
 		calls := f.Site == "JSON.parse+reviver:calls"
 		if dev&devKeyOrder == 0 {
 			ex := expectRevive(in, dev, nil)
 			if calls {
-				return clip(ex.log) == f.Actual
+				return same(ex.log, f.Actual)
 			}
-			return clip(ex.result) == f.Actual
+			return same(ex.result, f.Actual)
 		}
 		// properties created in an arbitrary order: compare modulo key order; the
 		// call log as a multiset of (key, value) - holder snapshots and sibling
@@ -92,9 +96,9 @@ func reproduces(f *run.Failure, in Input, dev refjson.Dev) bool {
 		match := func(a []int) bool {
 			ex := expectRevive(in, dev, a)
 			if calls {
-				return s == clip("sorted="+ex.logCanon)[7:]
+				return same("sorted="+ex.logCanon, "sorted="+s)
 			}
-			return s == clip("sorted="+ex.sorted)[7:]
+			return same("sorted="+ex.sorted, "sorted="+s)
 		}
 		if dev&devLiveEnum == 0 {
 			return match(nil)
@@ -104,24 +108,24 @@ func reproduces(f *run.Failure, in Input, dev refjson.Dev) bool {
 		return found
 	case "JSON.stringify":
 		res, _ := modelStringify(in, dev)
-		return clip(resultString(res)) == f.Actual
+		return same(resultString(res), f.Actual)
 	case "JSON.stringify:calls":
 		_, log := modelStringify(in, dev)
-		return clip(strings.Join(log, " | ")) == f.Actual
+		return same(strings.Join(log, " | "), f.Actual)
 	case "JSON.stringify:reread", "law:parse(stringify(v))":
 		res, _ := modelStringify(in, dev)
 		if res.Kind != refjson.RText {
 			return false
 		}
 		want, ok := expectReread(res)
-		return ok && clip(want) == f.Actual
+		return ok && same(want, f.Actual)
 	case "Value.MarshalJSON", "Object.MarshalJSON":
 		res, _ := modelStringify(in, dev)
 		if res.Kind != refjson.RText {
 			return false
 		}
 		want, ok := expectMarshal(res)
-		return ok && clip(want) == f.Actual
+		return ok && same(want, f.Actual)
 	}
 	return false
 }
